@@ -26,4 +26,12 @@ def jobs(tier):
                         specs=hex2_safety_specs(c), replace=[fn_hex3(c)], solver='cadical', timeout=300,
                         must_have=['precondition'],
                         clause='two-argument hex reader passes a readable range to the scanning overload'))
+    out.append(dict(name='stringToNumber<char>.memory-safety', unit=UNIT, fn=FN_S2N, roots=['Qentem::Digit::stringToNumber<char>'],
+                    specs=s2n_specs(), replace=[FN_PEXP, FN_PNEG, FN_PPOS, FN_HEX64], solver='cadical', timeout=900, split=8, objbits=10,
+                    must_have=['postcondition', 'loop_invariant_step', 'loop_decreases', 'pointer_dereference'],
+                    clause='number scanner reads only [content, content+end_offset), every loop terminates, the cursor never passes end_offset'))
+    out.append(dict(name='parseExponent<char>.memory-safety', unit=UNIT, fn=FN_PEXP, roots=['Qentem::Digit::parseExponent<char>'],
+                    specs={FN_PEXP: pexp_spec()}, solver='cadical', timeout=300,
+                    must_have=['postcondition', 'loop_invariant_step', 'loop_decreases', 'pointer_dereference'],
+                    clause='exponent parser reads only inside the buffer, terminates, the cursor never passes end_offset'))
     return out
